@@ -10,5 +10,12 @@ func VerifC14App() {
 		verifUnsupported("no static call to jwtauth.New found in package app")
 	}
 	verifAssert(alg == "HS256", "C14.tokens-verified-with-HS256")
+	// the profiling switch handed to NewServer is the VALUE of the enable-profiling flag
+	src := verifCallArgSource("github.com/Flowpack/prunner/app", "github.com/Flowpack/prunner/server.NewServer", 4)
+	verifNote("NewServer enableProfiling argument", src)
+	if src == "" {
+		verifUnsupported("no static call to server.NewServer found in package app")
+	}
+	verifAssert(src == "(*github.com/urfave/cli/v2.Context).Bool(\"enable-profiling\")", "C14.profiling-only-when-explicitly-enabled")
 	verifReach("checked")
 }
